@@ -64,6 +64,13 @@ pub fn convert_grammar_functions_to_semantic_functions(
         }
 
         if let Some(index) = index {
+            if index < output.len() {
+                anyhow::bail!(
+                    "vftable function `{}` is declared at index {index}, but the functions before it already occupy {} slots",
+                    function.name,
+                    output.len()
+                );
+            }
             make_padding_functions(&mut output, index);
         }
         let function = function::build(type_registry, &module.scope(), true, function)
@@ -73,6 +80,12 @@ pub fn convert_grammar_functions_to_semantic_functions(
 
     // Pad out to target size
     if let Some(size) = size {
+        if size < output.len() {
+            anyhow::bail!(
+                "vftable is declared with size {size}, but its functions occupy {} slots",
+                output.len()
+            );
+        }
         make_padding_functions(&mut output, size);
     }
 
